@@ -431,6 +431,34 @@ def g_history(rng, quick):
 
 # ------------------------------------------------------------------------------------------ implementation side
 
+class Hang(BaseException):
+    """raised by the watchdog inside the implementation (BaseException: not swallowed by `except Exception`)"""
+
+
+class deadline:
+    """`with deadline(seconds):` -- SIGALRM based; a store call that never returns (e.g. endless lock retries)
+    becomes a Hang instead of blocking the check."""
+
+    def __init__(self, seconds):
+        self.seconds = seconds
+
+    def _fire(self, *a):
+        raise Hang()
+
+    def __enter__(self):
+        import signal
+        self.old = signal.signal(signal.SIGALRM, self._fire)
+        signal.alarm(self.seconds)
+
+    def __exit__(self, *a):
+        import signal
+        signal.alarm(0)
+        signal.signal(signal.SIGALRM, self.old)
+        return False
+
+
+HANG_S = 40
+
 def problem_class():
     from artap.problem import Problem
 
@@ -478,7 +506,11 @@ def write_history(case, path):
             os.remove(path + suffix)
     problems = []
     wops = []
+    p = new_problem(case["problem"])
+    problems.append(p)
+    wp = W_problem(p)
     try:
+      with deadline(HANG_S):
         if mode == "write-empty":
             open(path, "w").close()
         if mode == "rewrite-existing":       # a file with other content that `rewrite` must discard
@@ -489,9 +521,6 @@ def write_history(case, path):
             z.id = case["objs"][0]["id"]
             st.sync_individual(z)
             st.destroy()
-        p = new_problem(case["problem"])
-        problems.append(p)
-        wp = W_problem(p)
         store = SqliteDataStore(p, database_name=path, mode="rewrite" if mode.startswith("rewrite") else "write", thread_safe=ts)
         p.data_store = store
         objs = [Individual() for _ in case["objs"]]
@@ -519,6 +548,8 @@ def write_history(case, path):
                 return wp, wops, "op %d %r raised %s: %s" % (k, op[0], type(e).__name__, e)
         store.destroy()
         return wp, wops, None
+    except Hang:
+        return wp, wops, "the history did not finish within %d s (a synchronisation call never returns)" % HANG_S
     finally:
         for q in problems:
             drop_problem(q)
@@ -533,7 +564,7 @@ def read_files(paths, rundir):
     env["REPO"] = common.REPO
     env["TMPDIR"] = rundir
     r = subprocess.run([sys.executable, "-m", "harness.c10", "--read", lst], cwd=common.VERIF, env=env, capture_output=True,
-                       text=True, timeout=1800)
+                       text=True, timeout=900)
     lines = [l for l in r.stdout.splitlines() if l.startswith("C10READ ")]
     if r.returncode != 0 or len(lines) != len(paths):
         # the reader itself died (import error, API gone): the read-mode view cannot be produced any more
@@ -682,7 +713,9 @@ def run_history_batch(ctx, cases, rundir, tag):
         path = os.path.join(rundir, "%s-%d.sqlite" % (tag, k))
         wp, wops, err = write_history(c, path)
         written.append((path, wp, wops, err))
-    got = read_files([w[0] for w in written], rundir)
+    okp = [w[0] for w in written if w[3] is None]
+    gotd = dict(zip(okp, read_files(okp, rundir))) if okp else {}
+    got = [gotd.get(w[0]) for w in written]
     model = ctx.lean(["c10.session %s|[%s]" % (wp, "".join(wops)) for _, wp, wops, _ in written])
     res = []
     for c, (path, wp, wops, err), g, mo in zip(cases, written, got, model):
@@ -861,7 +894,10 @@ def run_algo_once(cfg, path):
         with contextlib.redirect_stdout(io.StringIO()), contextlib.redirect_stderr(io.StringIO()):
             a = make_algo(name, p, cfg["N"], cfg["G"], random.Random(cfg["seed"]))
             try:
-                a.run()
+                with deadline(HANG_S + 20):
+                    a.run()
+            except Hang:
+                return wp, wops, [], "%s.run() did not finish within %d s (a synchronisation call never returns)" % (name, HANG_S + 20)
             except Exception as e:
                 return wp, wops, [], "%s.run() raised %s: %s" % (name, type(e).__name__, e)
         store.destroy()
